@@ -13,7 +13,7 @@ RULE = (
     "a case is (total, connect, read) from {unset, None, 0.5, 2, 10}^3 x placement {pool Timeout, request Timeout, "
     "both (pool-level decoys), pool float, request float, request float over pool-level decoys} x connect duration d from {0, .25, .5, 1, 2, 5, 20} on a "
     "virtual clock x history {fresh connection, reused connection, second request on a new connection after a first "
-    "one with its own d} x server {answers, stays silent} x scheme {http, https over the identity TLS layer, https through a CONNECT tunnel of a ProxyManager}; the quick "
+    "one with its own d, the attempt re-issued after a 503 (status retry)} x server {answers, stays silent} x scheme {http, https over the identity TLS layer, https through a CONNECT tunnel of a ProxyManager}; the quick "
     "tier already enumerates this grid completely (distinct by construction). Plus the invalid-value table and the "
     "pure Timeout arithmetic grid; thorough adds Hypothesis-drawn floats (monotonicity / bound checks). Non-trivial = "
     "total is set together with connect or read, or d > 0, or it is a second request."
@@ -28,7 +28,7 @@ EXHAUSTIVE = {"quick": True, "thorough": True}
 VALS = ["unset", None, 0.5, 2, 10]
 DS = [0, 0.25, 0.5, 1, 2, 5, 20]
 PLACEMENTS = ["pool", "request", "both", "pool-float", "request-float", "both-float"]
-HISTORIES = ["fresh", "reused", "second-fresh"]
+HISTORIES = ["fresh", "reused", "second-fresh", "status-retry"]
 DECOY = (0.123, 0.111, 0.117)
 INVALID = [0, -1, -0.0, True, False, "x", "1", [], {}, (), -3.5, 0.0, b"1"]
 EPS = 1e-6
@@ -57,12 +57,13 @@ def expected(total, connect, read, d):
 
 
 class Srv(fakenet.Endpoint):
-    def __init__(self, net_clock, ds, silent, close_first=False):
+    def __init__(self, net_clock, ds, silent, close_first=False, busy_first=False):
         super().__init__()
         self.clock = net_clock
         self.ds = list(ds)
         self.silent = silent
         self.close_first = close_first
+        self.busy_first = busy_first  # the first attempt of the judged request is answered 503 (keep-alive): the client re-issues it
 
     def on_connect(self, sock, sa):
         super().on_connect(sock, sa)
@@ -81,6 +82,10 @@ class Srv(fakenet.Endpoint):
             return
         n = len(self.requests)
         last = req.target.endswith(b"/last")
+        if self.busy_first and last:
+            self.busy_first = False
+            self.reply(sock, fakenet.response_bytes(503, body=b"", keep_alive=True))
+            return
         if self.silent and last:
             sock.rx.append(fakenet.NEVER)
             return
@@ -117,8 +122,10 @@ def run_http(case) -> list[Failure]:
     fails: list[Failure] = []
     clock = fakenet.VClock(1024.0)
     d_first = case.get("d_first", 1)
-    ds = [d] if history == "fresh" else ([d_first] if history == "reused" else [d_first, d])
-    srv = Srv(clock, ds, silent, close_first=(history == "second-fresh"))
+    ds = [d] if history == "fresh" else ([d_first] if history in ("reused", "status-retry") else [d_first, d])
+    srv = Srv(clock, ds, silent, close_first=(history == "second-fresh"), busy_first=(history == "status-retry"))
+    # status-retry: the judged wait is that of the attempt re-issued (on the same connection) after a 503
+    rt = urllib3.Retry(total=1, status_forcelist=[503], backoff_factor=0, raise_on_status=False) if history == "status-retry" else False
     sig_base = {"placement": placement, "history": history, "scheme": scheme}
     with fakenet.Net(srv, clock) as net:
         pool_kw = {}
@@ -136,18 +143,18 @@ def run_http(case) -> list[Failure]:
             # the same clauses through a CONNECT tunnel: the connect phase is the connection to the proxy
             from vlib import nulltls
 
-            mgr = urllib3.ProxyManager("http://proxy.test:3128", retries=False, ssl_context=nulltls.NullTLSContext("c19"), **pool_kw)
+            mgr = urllib3.ProxyManager("http://proxy.test:3128", retries=rt, ssl_context=nulltls.NullTLSContext("c19"), **pool_kw)
             pool = mgr.connection_from_url("https://h.test/")
         elif scheme == "https":
             from vlib import nulltls
 
             ctx = nulltls.NullTLSContext("c19")
-            pool = urllib3.HTTPSConnectionPool("h.test", 443, retries=False, ssl_context=ctx, **pool_kw)
+            pool = urllib3.HTTPSConnectionPool("h.test", 443, retries=rt, ssl_context=ctx, **pool_kw)
         else:
-            pool = urllib3.HTTPConnectionPool("h.test", 80, retries=False, **pool_kw)
+            pool = urllib3.HTTPConnectionPool("h.test", 80, retries=rt, **pool_kw)
         snapshot = repr(pool.timeout)
         try:
-            if history != "fresh":
+            if history not in ("fresh", "status-retry"):
                 # the first request: same placement, its own connect duration, always answered
                 try:
                     r1 = pool.urlopen("GET", "/first", **req_kw)
@@ -169,10 +176,16 @@ def run_http(case) -> list[Failure]:
                 outcome = "read-timeout"
             except BaseException as e:  # noqa: BLE001
                 outcome = "exc:" + type(e).__name__
+                if type(e).__name__ == "MaxRetryError" and isinstance(getattr(e, "reason", None), ReadTimeoutError):
+                    outcome = "read-timeout"  # (status-retry history: the budget was spent on the 503)
                 if scheme == "https-tunnel" and type(e).__name__ == "ProxyError" and isinstance(getattr(e, "original_error", None), ConnectTimeoutError):
                     outcome = "connect-timeout"  # a timeout while connecting to the proxy is reported as ProxyError(ConnectTimeoutError)
             evs = net.events[n_before:]
-            if history == "reused":
+            if history == "status-retry":
+                d_eff, connected = 0, False
+                if outcome == "connect-timeout" or len(net.sockets) != socks_before + 1 or srv.busy_first:
+                    raise core.InvalidCase  # harness expectation: one connection (d_first fits), the 503 was served on it
+            elif history == "reused":
                 d_eff, connected = 0, False
                 if len(net.sockets) != socks_before:
                     raise core.InvalidCase  # harness expectation: the connection is reused
